@@ -178,7 +178,10 @@ def type_src(t):
 class Knobs:
     """layout knobs of the renderer (C16 / C14 use non-default ones)"""
 
-    def __init__(self, parens=False, pipe=False, comments=False, newline_in_brackets=False, rename=None, annotate=False, fieldrename=None):
+    def __init__(self, parens=False, pipe=False, comments=False, newline_in_brackets=False, rename=None, annotate=False, fieldrename=None,
+                 dedent=False, semi=False):
+        self.dedent = dedent      # no indentation at all: every line starts in column 0
+        self.semi = semi          # statements of a block separated by `;` directly followed by the next token
         self.parens = parens
         self.pipe = pipe
         self.comments = comments
@@ -207,7 +210,7 @@ def _cmt(kn, key):
 
 def block(n, kn, ind):
     """render n as the contents of a `{ }` block: a sequence of statements ending in an expression"""
-    pad = "  " * ind
+    pad = "" if kn.dedent else "  " * ind
     lines = []
     _lines_append = lines.append
 
@@ -244,12 +247,14 @@ def block(n, kn, ind):
             add(f"{pad}{kn.name(n.a[0])} = {src(n.a[1], kn, ind)}", n.a[0] + "s")
             n = n.a[2]
     add(pad + src(n, kn, ind), "tail%d" % len(lines))
+    if kn.semi and not kn.comments:
+        return ";".join(l.strip() for l in lines)
     return "\n".join(lines)
 
 
 
 def braces(n, kn, ind):
-    return "{\n" + block(n, kn, ind + 1) + "\n" + "  " * ind + "}"
+    return "{\n" + block(n, kn, ind + 1) + "\n" + ("" if kn.dedent else "  " * ind) + "}"
 
 
 def src(n, kn=DEFAULT, ind=0, prec=0):
@@ -279,7 +284,7 @@ def src(n, kn=DEFAULT, ind=0, prec=0):
         return f"{{ {kn.name(a[0])} <- {kn.field(a[1])} = {src(a[4], kn, ind)} }}"
     if k == "tup":
         if kn.nl:
-            pad = "  " * (ind + 2)
+            pad = "" if kn.dedent else "  " * (ind + 2)
             return "(\n" + pad + f",\n{pad}".join(src(x, kn, ind) for x in a[0]) + ")"
         return "(" + ", ".join(src(x, kn, ind) for x in a[0]) + ")"
     if k == "proj":
